@@ -53,6 +53,8 @@ def annotate_real(text, style, multi, replace=True, merge=False, request="full")
         kw["copyright_lines"] = {"SPDX-FileCopyrightText: 2020 Jane Doe"}
     if request == "case-twin":
         kw = {"spdx_expressions": {_LICENSING.parse("GPL-3.0-or-later")}, "copyright_lines": {"SPDX-FileCopyrightText: 2019 OLD HOLDER"}, "contributor_lines": {"OLD CONTRIBUTOR"}}
+    if request == "verbatim-notice":
+        kw = {"copyright_lines": {"Portions Copyright 2019 Jane Doe"}}
     if request == "two-years":
         from reuse.cli.annotate import get_year
         from reuse.copyright import make_copyright_line
